@@ -65,9 +65,16 @@ def _concurrency(ctx):
         return res
     cwd = ctx.scratch('c04conc')
     args = ['mode=conc', 'rounds=%d' % (30 if race else 6)]
-    rc, so, se = vlib.run([binp] + args, cwd=cwd, env=dict(VERIF_SEED=str(ctx.seed)), timeout=1200)
+    rc, so, se = vlib.run([binp] + args, cwd=cwd, env=dict(VERIF_SEED=str(ctx.seed), GORACE='exitcode=0'), timeout=1200)
     import shutil
     shutil.rmtree(cwd, ignore_errors=True)
+    # race reports: the unsynchronised package global rpgContractAddress (rewritten by loadContractCache on every
+    # balance lookup while no ERC20 binding exists) is a by-product documented in design/C04.md; any other report fails
+    reports = [r for r in se.split('WARNING: DATA RACE')[1:]]
+    other = [r for r in reports if 'loadContractCache' not in r]
+    res['race_reports'] = dict(total=len(reports), rpgContractAddress=len(reports) - len(other), other=len(other))
+    if other:
+        res['errors'].append('unexpected data race: ' + other[0][:600])
     for line in so.split('\n'):
         if line.startswith('STATS '):
             st = json.loads(line[6:])
@@ -77,7 +84,7 @@ def _concurrency(ctx):
             res['first'] = [dict(index=0, op='concurrent replay', impl=m, model='answer when run alone') for m in (st.get('mismatches') or [])]
     if rc != 0:
         res['errors'].append('exit %d: %s' % (rc, (se or so)[-800:]))
-    res['ok'] = rc == 0 and res['ops'] > 0 and res['mismatches'] == 0
+    res['ok'] = rc == 0 and res['ops'] > 0 and res['mismatches'] == 0 and not other
     return res
 
 
